@@ -7,6 +7,7 @@
 mod dump;
 mod round3;
 mod round4;
+mod round5;
 mod alloc;
 mod cases;
 mod exec;
@@ -304,6 +305,12 @@ fn cases_for(prop: &str, tier: &str, seed: u64, out: &mut Out) {
                 }
                 let id = out.oracle_only_id();
                 out.verdict(&id, "scenario far-records", round3::oracle_far_records());
+                for n in [9usize, 3] {
+                    let id = out.oracle_only_id();
+                    out.verdict(&id, &format!("scenario iter-adaptors {}", n), round5::oracle_iter_adaptors(n));
+                }
+                let id = out.oracle_only_id();
+                out.verdict(&id, "scenario big-index-routes 1500", round5::oracle_big_index_routes(1500));
                 for (n_old, n_new) in [(6usize, 2usize), (3, 3), (2, 5), (9, 1)] {
                     let id = out.oracle_only_id();
                     out.verdict(&id, &format!("scenario reused-destinations {} {}", n_old, n_new), round4::oracle_reused_destinations(n_old, n_new));
@@ -340,6 +347,10 @@ fn cases_for(prop: &str, tier: &str, seed: u64, out: &mut Out) {
                     run_and_judge(out, &Case::Write { shx: true, ctors: vec![c] });
                 }
             }
+            if prop == "C13" {
+                let id = out.oracle_only_id();
+                out.verdict(&id, "scenario gap-faults", round5::oracle_gap_faults());
+            }
             if prop == "C02" {
                 for n in [1usize, 3, 20] {
                     let id = out.oracle_only_id();
@@ -364,6 +375,19 @@ fn cases_for(prop: &str, tier: &str, seed: u64, out: &mut Out) {
             }
             let id = out.oracle_only_id();
             out.verdict(&id, "scenario empty-index", round4::oracle_empty_index());
+            let id = out.oracle_only_id();
+            out.verdict(&id, "scenario big-index-routes 1500", round5::oracle_big_index_routes(1500));
+            let id = out.oracle_only_id();
+            out.verdict(&id, "scenario typed-nth-failure", round3::oracle_typed_nth_failure());
+
+            // a typed iteration over a file with a null record in the middle (fillers, reverse order)
+            {
+                let (nf, nx) = round5::null_in_the_middle();
+                for tg in ["Point", "generic", "PointZ"] {
+                    run_and_judge(out, &Case::Read { target: tg.into(), shp: nf.clone(), shx: Some(nx.clone()) });
+                    run_and_judge(out, &Case::Rhist { target: tg.into(), shp: nf.clone(), shx: Some(nx.clone()), ops: vec![ROp::Nth(1), ROp::It(2), ROp::Nth(1), ROp::It(99), ROp::Hint] });
+                }
+            }
             // the same records in reverse physical order, driven by operation histories
             let (pf, px) = round4::permuted_polylines(4);
             for ops in [vec![ROp::It(99)], vec![ROp::Nth(3), ROp::It(99)], vec![ROp::Seek(2), ROp::It(1), ROp::It(99)], vec![ROp::It(2), ROp::Nth(0), ROp::It(99), ROp::Count]] {
@@ -376,6 +400,43 @@ fn cases_for(prop: &str, tier: &str, seed: u64, out: &mut Out) {
                 out.verdict(&id, "scenario typed-nth-failure", round3::oracle_typed_nth_failure());
                 let id = out.oracle_only_id();
                 out.verdict(&id, "scenario read-vs-readas", round4::oracle_read_vs_readas());
+            }
+            // records without their optional M block: typed and generic reads must still agree
+            for (fam, d) in ALL13.iter().filter(|(f, d)| *d != Dim::Xy && *f != "point") {
+                let c = {
+                    let mut g = Gen { rng: &mut rng, stats: &mut stats, max_parts: 2, max_points: 4 };
+                    g.ctor(fam, *d, Flavor::Exact, false)
+                };
+                let a = build(&c).unwrap();
+                let npts = sv_of_any(&a).parts().iter().map(|p| p.len()).sum::<usize>();
+                let (shp, _) = write_files(false, std::slice::from_ref(&a));
+                let f = round5::strip_record_tail(&shp, 16 + 8 * npts);
+                stats.hit("typed.m-less-record");
+                for req in TYPE_NAMES {
+                    run_and_judge(out, &Case::Read { target: req.to_string(), shp: f.clone(), shx: None });
+                }
+                run_and_judge(out, &Case::Read { target: "generic".into(), shp: f, shx: None });
+            }
+            {
+                let a = build(&Ctor::Point(Dim::Xyzm, P { x: 1.0f64.to_bits(), y: 2.0f64.to_bits(), z: 3.0f64.to_bits(), m: 4.0f64.to_bits() })).unwrap();
+                let (shp, _) = write_files(false, std::slice::from_ref(&a));
+                let f = round5::strip_record_tail(&shp, 8);
+                for req in TYPE_NAMES {
+                    run_and_judge(out, &Case::Read { target: req.to_string(), shp: f.clone(), shx: None });
+                }
+            }
+            // polylines all of whose parts are closed (they look like rings): still polylines
+            for d in Dim::ALL {
+                let ring = |o: f64| -> Vec<P> {
+                    [(0.0, 0.0), (0.0, 3.0), (3.0, 3.0), (3.0, 0.0), (0.0, 0.0)].iter().map(|(x, y)| P { x: (o + x).to_bits(), y: (*y as f64).to_bits(), z: 1.0f64.to_bits(), m: 2.0f64.to_bits() }).collect()
+                };
+                let c = Ctor::PolylineParts(d, vec![ring(0.0), ring(10.0)]);
+                stats.hit("typed.closed-polyline");
+                run_and_judge(out, &Case::Construct(c.clone()));
+                let (shp, _) = write_files(false, &[build(&c).unwrap()]);
+                for req in TYPE_NAMES {
+                    run_and_judge(out, &Case::Read { target: req.to_string(), shp: shp.clone(), shx: None });
+                }
             }
             // files whose header does not tell what the first record is: no record at all, a null
             // record first, a header of another type than the records
@@ -475,6 +536,20 @@ fn cases_for(prop: &str, tier: &str, seed: u64, out: &mut Out) {
                     run_and_judge(out, &Case::Rhist { target: "generic".into(), shp: f, shx: Some(shx.clone()), ops: vec![ROp::It(2), ROp::Hint, ROp::It(99), ROp::Hint] });
                 }
             }
+            // records that hold no vertex at all, with a stored box of any value
+            for code in [8i32, 18, 28, 3, 5, 13, 15, 23, 25, 31] {
+                for nparts in [0usize, 1, 2] {
+                    if [8, 18, 28].contains(&code) && nparts > 0 {
+                        continue;
+                    }
+                    for boxv in [0.0f64, f64::NAN, f64::INFINITY, -1e39] {
+                        for with_m in [true, false] {
+                            stats.hit("mut.empty-shape");
+                            run_and_judge(out, &Case::Read { target: "generic".into(), shp: round5::empty_shape_file(code, nparts, boxv, with_m), shx: None });
+                        }
+                    }
+                }
+            }
             if prop == "C17" {
                 for words in [1i32 << 22, i32::MAX, 1 << 28] {
                     let id = out.oracle_only_id();
@@ -486,6 +561,10 @@ fn cases_for(prop: &str, tier: &str, seed: u64, out: &mut Out) {
             extra::cases_whist(prop, tier, &mut rng, &mut stats, out);
             if prop == "C09" {
                 extra::cases_fault("quick", &mut rng, &mut stats, out);
+                for (n_old, n_new) in [(40usize, 3usize), (7, 7), (12, 1)] {
+                    let id = out.oracle_only_id();
+                    out.verdict(&id, &format!("scenario path-overwrite {} {}", n_old, n_new), extra::oracle_path_overwrite(n_old, n_new));
+                }
             }
             if prop == "C10" {
                 for kind in ["null", "huge"] {
@@ -506,6 +585,14 @@ fn cases_for(prop: &str, tier: &str, seed: u64, out: &mut Out) {
             extra::cases_pairs_c15(tier, &mut stats, out);
             let id = out.oracle_only_id();
             out.verdict(&id, "scenario typed-nth-failure", round3::oracle_typed_nth_failure());
+            {
+                let (nf, nx) = round5::null_in_the_middle();
+                for tg in ["Point", "generic"] {
+                    for ops in [vec![ROp::It(99), ROp::It(99)], vec![ROp::Nth(1), ROp::It(2), ROp::Nth(1), ROp::It(99)], vec![ROp::Seek(1), ROp::It(99)], vec![ROp::It(3), ROp::Nth(4), ROp::It(99)]] {
+                        run_and_judge(out, &Case::Rhist { target: tg.into(), shp: nf.clone(), shx: Some(nx.clone()), ops });
+                    }
+                }
+            }
         }
         "C08" => extra::cases_dbf(tier, &mut rng, &mut stats, out),
         "C20" => extra::cases_geo(tier, &mut rng, &mut stats, out),
@@ -537,6 +624,19 @@ fn cases_for(prop: &str, tier: &str, seed: u64, out: &mut Out) {
                     let scaled: Vec<P> = ps.iter().map(|p| P { x: (ox + f(p.x) * s).to_bits(), y: (oy + f(p.y) * s).to_bits(), z: p.z, m: p.m }).collect();
                     g.stats.hit("ring.scaled");
                     run_and_judge(out, &Case::Ring(d, r, scaled));
+                }
+            }
+            // rings with more vertices than any block a summation could be cut into
+            for (w, h) in [(40usize, 25usize), (64, 1), (100, 30), (200, 57)] {
+                for cw in [true, false] {
+                    for role in [Role::Outer, Role::Inner] {
+                        let ps = round5::long_ring(w, h, 500000.0, 1000000.0, cw);
+                        stats.hit("ring.long");
+                        run_and_judge(out, &Case::Ring(Dim::Xy, role, ps.clone()));
+                        let mut open = ps.clone();
+                        open.pop();
+                        run_and_judge(out, &Case::Ring(Dim::Xy, role, open));
+                    }
                 }
             }
             extra::macro_cases(out);
@@ -651,6 +751,15 @@ fn cases_for(prop: &str, tier: &str, seed: u64, out: &mut Out) {
                     let id = out.oracle_only_id();
                     let v = u32::from_be_bytes(vb);
                     out.verdict(&id, &format!("scenario header-code-version {} {:08x}", c, v), round3::oracle_header_code_any_version(c, vb));
+                }
+            }
+            // every code of the table, and its neighbours, with header ranges of every kind
+            for r in ESRI_TABLE.iter() {
+                for c in [r.0, r.0 + 1, r.0 - 1] {
+                    for which in 0..5usize {
+                        let id = out.oracle_only_id();
+                        out.verdict(&id, &format!("scenario header-code-ranges {} {}", c, which), round5::oracle_header_code_ranges(c, which));
+                    }
                 }
             }
             // the same through a source that returns 1, 2 or 3 bytes per read call
